@@ -1,12 +1,14 @@
 import PV.Model.Tools
+import PV.Model.Cleaning
+import PV.Lemmas.Cleaning
 import PV.Spec.FirstOcc
 import PV.Spec.Utf8
 import PV.Lemmas.Tools
 import PV.Lemmas.Utf8
 /-
 C18 — line filters keep or drop each line by its own content only.
-(simple_cleaning's per-field predicate with ICU's classification as parameters is in
-PV.Model.Cleaning / C18b theorems below once added.)
+(simple_cleaning's per-field predicate, with ICU's classification and the float threshold tests as parameters,
+is PV.Model.Cleaning; its theorems are in the last section.)
 -/
 namespace PV.Props.C18
 open PV.Tools PV.Spec.FirstOcc
@@ -94,6 +96,69 @@ theorem ccdedupe_output_wellformed (key : Line → Nat) (seen : List Nat) (ls : 
   refine ⟨?_, PV.Lemmas.Tools.ccGo_nodup key ls seen⟩
   intro l hl
   exact (PV.Lemmas.Tools.isUTF8_iff l).1 (PV.Lemmas.Tools.mem_ccGo key ls seen l hl).1
+
+
+/-! #### simple_cleaning (PV.Model.Cleaning; ICU classification and the float thresholds are parameters) -/
+section Cleaning
+open PV.Cleaning
+
+/-- Full characterisation of one field's verdict: it is kept exactly when it is well-formed UTF-8 whose code
+    points contain no C0 control other than tab / CR, all have a script, contain no run of `max run 2` equal
+    non-space characters, number at least `--min-chars`, and pass the threshold tests on the counters. -/
+theorem cleaning_keep_iff (p : Params) (bs : List UInt8) :
+    keep p bs = true ↔ ∃ cs, PV.Utf8.decodeAll bs = some cs ∧ Accept p cs :=
+  PV.Lemmas.Cleaning.keep_iff p bs
+
+/-- simple_cleaning never passes ill-formed UTF-8 (whatever the parameters and thresholds). -/
+theorem cleaning_rejects_illformed (p : Params) (bs : List UInt8) (h : keep p bs = true) :
+    PV.Spec.Utf8.WellFormed bs := by
+  obtain ⟨cs, hd, _⟩ := (cleaning_keep_iff p bs).mp h
+  exact ⟨cs, (PV.Lemmas.Utf8.decodeAllFuel_iff bs.length bs cs (Nat.le_refl _)).mp hd⟩
+
+/-- ... nor a C0 control character other than tab and carriage return. -/
+theorem cleaning_rejects_controls (p : Params) (bs : List UInt8) (cs : List Nat)
+    (h : keep p bs = true) (hd : PV.Utf8.decodeAll bs = some cs) :
+    ∀ c ∈ cs, ¬ (c < 32 ∧ c ≠ 9 ∧ c ≠ 13) := by
+  obtain ⟨cs', hd', hacc⟩ := (cleaning_keep_iff p bs).mp h
+  rw [hd] at hd'; cases hd'
+  intro c hc ⟨h1, h2, h3⟩
+  have := hacc.1 c hc
+  simp [isCtrl, h1, h2, h3] at this
+
+/-- ... nor a field with fewer than `--min-chars` code points, nor one with a run of `--character-run` (at least 2)
+    equal non-space characters. -/
+theorem cleaning_min_chars_and_runs (p : Params) (bs : List UInt8) (cs : List Nat)
+    (h : keep p bs = true) (hd : PV.Utf8.decodeAll bs = some cs) :
+    p.minChars ≤ cs.length ∧ NoLongRun p cs := by
+  obtain ⟨cs', hd', hacc⟩ := (cleaning_keep_iff p bs).mp h
+  rw [hd] at hd'; cases hd'
+  exact ⟨hacc.2.2.2.1, hacc.2.2.1⟩
+
+/-- A line is kept exactly when every selected field is kept; the verdict is a function of the line alone, so
+    the tool's output is a sublist of its input and filtering distributes over concatenation. -/
+theorem cleaning_linewise (p : Params) (ranges : List PV.Fields.FieldRange) (delim : UInt8) (a b : List (List UInt8)) :
+    filter p ranges delim (a ++ b) = filter p ranges delim a ++ filter p ranges delim b ∧
+    (filter p ranges delim a).Sublist a ∧
+    (∀ l, l ∈ filter p ranges delim a ↔ l ∈ a ∧ ∀ f ∈ PV.Fields.individualFields l ranges delim, keep p f = true) := by
+  refine ⟨List.filter_append .., List.filter_sublist, ?_⟩
+  intro l
+  unfold filter keepLine
+  rw [List.mem_filter, List.all_eq_true]
+
+/-- non-vacuity: with a Latin/Common classification, "ab, c" (6 code points incl. a space and a comma) is kept
+    with --min-chars 3 and --character-run 3, "aaa" is dropped for its run, "a\x01b" for its control character and
+    "\xff" for being ill-formed. -/
+def exParams : Params :=
+  { minChars := 3, run := 3, scriptOf := fun c => some (if c = 32 ∨ c = 44 then 0 else 25),
+    isPunct := fun c => c == 44, isSpace := fun c => c == 32, thresholds := fun _ _ _ => true }
+example : keep exParams [97, 98, 44, 32, 99] = true := by decide
+example : keep exParams [97, 97, 97, 98] = false := by decide
+example : keep exParams [32, 32, 32, 32, 97] = true := by decide
+example : keep exParams [97, 1, 98, 99] = false := by decide
+example : keep exParams [255, 97, 98, 99] = false := by decide
+example : keep exParams [97, 98] = false := by decide
+
+end Cleaning
 
 -- non-vacuity
 example : removeLongLines 2 [[1, 2], [1, 2, 3], []] = [[1, 2], []] := by decide
